@@ -5,6 +5,7 @@
 # License: http://snmplabs.com/pysmi/license.html
 #
 import os
+import sys
 import time
 import struct
 try:
@@ -83,7 +84,7 @@ class PyPackageSearcher(AbstractSearcher):
                 debug.logger & debug.flagSearcher and debug.logger(
                     '%s is an importable egg at %s' % (self._package, os.path.split(p.__file__)[0]))
 
-            elif hasattr(p, '__file__'):
+            elif getattr(p, '__file__', None):
                 debug.logger & debug.flagSearcher and debug.logger(
                     '%s is not an egg, trying it as a package directory' % self._package)
                 return PyFileSearcher(os.path.split(p.__file__)[0]).fileExists(mibname, mtime, rebuild=rebuild)
@@ -104,6 +105,16 @@ class PyPackageSearcher(AbstractSearcher):
             pyData = self.__loader.get_data(f)
             if pyData[:4] == PY_MAGIC_NUMBER:
                 pyData = pyData[4:]
+
+                if sys.version_info >= (3, 7):
+                    # PEP 552: a flags word precedes the timestamp, and
+                    # hash-based bytecode files carry no timestamp at all
+                    if len(pyData) < 8 or struct.unpack('<L', pyData[:4])[0]:
+                        debug.logger & debug.flagSearcher and debug.logger('no timestamp in %s' % f)
+                        continue
+
+                    pyData = pyData[4:]
+
                 pyTime = struct.unpack('<L', pyData[:4])[0]
                 debug.logger & debug.flagSearcher and debug.logger(
                     'found %s, mtime %s' % (f, time.strftime("%a, %d %b %Y %H:%M:%S GMT", time.gmtime(pyTime))))
